@@ -56,6 +56,9 @@ func init() {
 			{Pkg: "wire", Entry: "VerifH06b", What: "designated replies, one ReadyForQuery per Sync, one ErrorResponse then skip until Sync",
 				Quick: map[string]int{"K": 3}, Thorough: map[string]int{"K": 4, "Q": 1},
 				Witnesses: []string{"error-then-more", "skipped-until-sync"}},
+			{Pkg: "wire", Entry: "VerifH06b", What: "same, with simple queries, unknown-type and oversized messages interleaved",
+				Quick: map[string]int{"K": 3, "Q": 1, "X": 1}, Thorough: map[string]int{"K": 3, "Q": 1, "X": 1},
+				Witnesses: []string{"unknown-or-oversized", "skipped-until-sync"}},
 		},
 	})
 	props = append(props, PropSpec{
